@@ -446,6 +446,26 @@ def check_buffer_access(chk, funcs, mods):
                 pr = is_buffer_member(ini, tu, 'length')
                 if pr is not None:
                     return [le_fact(nd.get('name'), pr)]
+                # minimum idiom: v = p > q ? q : p  (any of the four spellings) gives v <= p and v <= q
+                i0 = strip(ini, casts=True)
+                if i0.get('kind') == 'ConditionalOperator':
+                    c_, a_, b_ = kids(i0)
+                    c0 = strip(c_, casts=True)
+                    if c0.get('kind') == 'BinaryOperator' and c0.get('opcode') in ('<', '<=', '>', '>='):
+                        pt, qt = [astdb.expr_text(strip(x, casts=True)) for x in kids(c0)]
+                        at, bt = astdb.expr_text(strip(a_, casts=True)), astdb.expr_text(strip(b_, casts=True))
+                        is_min = (c0['opcode'] in ('>', '>=') and (at, bt) == (qt, pt)) or (c0['opcode'] in ('<', '<=') and (at, bt) == (pt, qt))
+                        if is_min:
+                            out = []
+                            for side_node, side_text in ((kids(c0)[0], pt), (kids(c0)[1], qt)):
+                                prm = is_buffer_member(side_node, tu, 'length')
+                                if prm is not None:
+                                    out.append(le_fact(nd.get('name'), prm))
+                                for fa in (facts or ()):
+                                    if fa[0] == 'le' and fa[1] == side_text:
+                                        out.append(le_fact(nd.get('name'), fa[2]))
+                            if out:
+                                return out
                 # snapshot idiom: p = B.data taken while L <= B.length; after consuming from B, `L -= B.data - p` restores L <= B.length
                 # (assumes the bytes consumed in between lie inside the first L bytes - module validity)
                 pd = is_buffer_member(ini, tu, 'data')
